@@ -223,12 +223,18 @@ def parseSetOpts : Nat → List Bytes → SetOpts → Option SetOpts
             parseSetOpts f r' { o with ttlMs := some (if u = [69, 88] then v.toNat * 1000 else v.toNat) }
     else none
 
+/-- A time to live is accepted only if its deadline fits signed 64-bit unix milliseconds (engine `check_ttl`, since
+    eecde49).  The model's clock is not the wall clock: the bound leaves 2^42 ms (until the year 2109) for "now"; times
+    between the two bounds are not generated. -/
+def ttlOk (ms : Nat) : Bool := ms ≤ 9223372036854775807 - 4398046511104
+
 def cmdSet (db : Db) (now : Nat) (args : List Bytes) : Db × Frame :=
   match args with
   | k :: v :: opts =>
     match parseSetOpts (opts.length + 1) opts {} with
     | none => (db, err)
     | some o =>
+      if (o.ttlMs.map ttlOk).getD true = false then (db, err) else
       let present := (lookup db k).isSome
       let go := match o.cond with
         | .always => true
@@ -278,7 +284,7 @@ def cmdSetex (db : Db) (now : Nat) (unit : Nat) (args : List Bytes) : Db × Fram
   match args with
   | [k, t, v] => match parseInt t with
     | none => (db, err)
-    | some n => if n ≤ 0 then (db, err) else
+    | some n => if n ≤ 0 then (db, err) else if !ttlOk (n.toNat * unit) then (db, err) else
         (insert db k { val := .str v, deadline := some (now + n.toNat * unit) }, ok)
   | _ => (db, err)
 
@@ -415,7 +421,9 @@ def cmdExpire (db : Db) (now : Nat) (unit : Nat) (args : List Bytes) : Db × Fra
   match args with
   | [k, t] => match parseInt t with
     | none => (db, err)
-    | some n => match lookup db k with
+    | some n =>
+      if 0 < n ∧ !ttlOk (n.toNat * unit) then (db, err) else
+      match lookup db k with
       | none => (db, int 0)
       | some e =>
         if n ≤ 0 then (erase db k, int 1)
